@@ -23,6 +23,7 @@ type tLeaf struct {
 	Levels []tLevel
 	List   bool
 	Union  []tLeaf // members
+	Share  string  // name of the leaf whose typedefs (all levels but the last) this one derives from as well
 }
 
 var s6Leaves = []tLeaf{
@@ -39,6 +40,9 @@ var s6Leaves = []tLeaf{
 	{Name: "r11", Base: "int64", Levels: []tLevel{{Range: "min..-9223372036854775807 | 0..1"}}},
 	{Name: "r12", Base: "int32", Levels: []tLevel{{Range: "1..5 | max"}}},
 	{Name: "r13", Base: "uint8", Levels: []tLevel{{Range: "min | 10..20"}}},
+	{Name: "r14", Base: "int32", Levels: []tLevel{{Range: "0..250"}, {Range: "10..200"}, {Range: "20..150"}, {Range: "30..40"}}},
+	{Name: "r15", Base: "int32", Share: "r14", Levels: []tLevel{{Range: "0..250"}, {Range: "10..200"}, {Range: "20..150"}, {Range: "100..120"}}},
+	{Name: "r16", Base: "int32", Share: "r14", List: true, Levels: []tLevel{{Range: "0..250"}, {Range: "10..200"}, {Range: "20..150"}, {Range: "130..140"}}},
 	{Name: "d1", Base: "decimal64", Body: "fraction-digits 2;", Levels: []tLevel{{Range: "-0.5..1.5"}}},
 	{Name: "d2", Base: "decimal64", Body: "fraction-digits 2;", Levels: []tLevel{{Range: "0..255.5"}, {Range: "0.5..127.5"}}},
 	{Name: "s1", Base: "string", Levels: []tLevel{{Length: "1..3"}}},
@@ -48,6 +52,7 @@ var s6Leaves = []tLeaf{
 	{Name: "s4", Base: "string", Levels: []tLevel{{Pats: []abs.Pat{{Re: "[a-c]+"}}}}},
 	{Name: "s5", Base: "string", Levels: []tLevel{{Pats: []abs.Pat{{Re: "[a-z]*"}, {Re: ".*b.*"}}}}},
 	{Name: "s6", Base: "string", Levels: []tLevel{{Pats: []abs.Pat{{Re: "[a-z]+"}}}, {Pats: []abs.Pat{{Re: "a.*", Inv: true}}}}},
+	{Name: "s11", Base: "string", Levels: []tLevel{{Pats: []abs.Pat{{Re: "a.*"}}}}},
 	{Name: "s7", Base: "string", Levels: []tLevel{{Length: "1..4", Pats: []abs.Pat{{Re: "[0-9a]+"}}}}},
 	{Name: "s8", Base: "string", Levels: []tLevel{{Pats: []abs.Pat{{Re: "ab|cd|xy"}}}}},
 	{Name: "s9", Base: "string", Levels: []tLevel{{Pats: []abs.Pat{{Re: "tmp|lost", Inv: true}}}}},
@@ -106,8 +111,14 @@ func typeText(name string, l tLeaf, typedefs *strings.Builder) string {
 		if last {
 			return fmt.Sprintf("type %s {%s }", cur, body)
 		}
-		td := fmt.Sprintf("t_%s_%d", name, i)
-		fmt.Fprintf(typedefs, "  typedef %s { type %s {%s } }\n", td, cur, body)
+		owner := name
+		if l.Share != "" {
+			owner = l.Share
+		}
+		td := fmt.Sprintf("t_%s_%d", owner, i)
+		if l.Share == "" {
+			fmt.Fprintf(typedefs, "  typedef %s { type %s {%s } }\n", td, cur, body)
+		}
 		cur = td
 	}
 	if l.Body != "" {
